@@ -26,7 +26,9 @@ def check_grid(label, g):
     want = HV.abs_grid(g)
     if not HV.same(got, want, TOL):
         return 'reference reader recovers %r, grid is %r' % (got, want)
-    return None
+    # the type prefix of a version-dependent kind is the one of the document's version, wherever the value stands
+    from props import C02_concrete
+    return C02_concrete.remove_spelling(g)
 
 
 def bounded(tier, seed):
